@@ -79,6 +79,10 @@ func c09Cases() []c09Case {
 		{"seek-time-ack", two, held, seekT("S0", "now"), nil},
 		{"create-snapshot", two, append(append([]model.Op{}, held...), ack("S0", "oldest")), snap("S0", "N0"), nil},
 		{"seek-snapshot", two, append(append([]model.Op{}, held...), snap("S0", "N0"), ack("S0", "all"), pub1("T0", "K1", 0)), seekS("S0", "N0"), nil},
+		// the snapshot carries an ack list (a later message was acknowledged, an earlier one
+		// not), and its entry is outstanding again when the seek runs: the seek then has a
+		// statement of its own for the list
+		{"seek-snapshot-with-ack-list", two, append(append([]model.Op{}, held...), ack("S0", "newest"), snap("S0", "N0"), seekT("S0", "before-all"), pull("S0", 10), ack("S0", "oldest")), seekS("S0", "N0"), nil},
 		{"delete-snapshot", two, append(append([]model.Op{}, backlog...), snap("S0", "N0")), model.Op{K: "delSnap", Name: "N0"}, nil},
 		{"deadletter-sweep", two, heldDue, sweep(), nil},
 	}
